@@ -5,6 +5,11 @@ import json, sys
 TECH = "bounded-exhaustive explicit-state exploration of the real code (own explorer / enumerators), "
 
 CHECKS = {
+ "C08": dict(
+   text="Every state of the SELECT / INSERT / UPDATE / DELETE builder-call state machines (QModel: BFS to depth 4 quick / 5 thorough) and every member of enumerated families of dialect-specific constructs is rendered by the real MySQL and PostgreSQL backends in both modes (to_string, build). The text must be accepted by that dialect's reference clause parser (written from the manuals' statement synopses over the reference lexer and expression parser: each clause at most once, in the grammar's position, constructs of the other dialect rejected) and its normalised clause structure (select list, FROM, joins and ON, WHERE, GROUP BY, HAVING, WINDOW, set operations, ORDER BY with NULLS form, LIMIT / OFFSET, locking, CTEs, upsert, RETURNING, UPDATE tables / SET / FROM) must equal that of an independently written explicit reference rendering of the reference state in the dialect's own forms. Families: MySQL index hints (all sequences of <= 2 / 3 hints over kind x scope, with and without following clauses), DISTINCT ON, TABLESAMPLE, named WINDOW with all 32 subsets of surrounding clauses, locking (4 strengths x OF tables x wait policy), CTEs (count x column list x materialisation x SEARCH / CYCLE), 17 PostgreSQL operators and 9 functions, enum casts in 3 positions, join forms (no ON, alias, subquery, lateral), ORDER BY forms (direction / FIELD x NULLS x SELECT / window / UPDATE / DELETE, 1-2 keys).",
+   note="Trusted: the reference clause grammars (no MySQL / PostgreSQL engine offline), the explicit reference renderer, and the normal form (parentheses, AND / OR associativity, TRUE conjuncts, IFNULL = COALESCE, MySQL `x IS NULL dir, x dir` = NULLS FIRST / LAST, MySQL UPDATE .. JOIN .. ON = comma form with WHERE). Requests a dialect cannot express (FULL OUTER JOIN on MySQL; CROSS JOIN .. ON, UPDATE / DELETE .. ORDER BY / LIMIT and REPLACE on PostgreSQL; PostgreSQL-only lock strengths, operators and functions on MySQL) are out of domain and counted. Set operations are compared as a flat list (precedence is C09's subject).",
+   technique=TECH+"BFS over builder-call histories plus exhaustive enumeration of dialect-construct families, oracle = reference clause parser per dialect and structural comparison with an explicit reference rendering",
+   ref="3.8"),
  "C13": dict(
    text="Two SQLite databases are driven in lock-step: one executes sea-query's rendering, the other an independently written explicit reference rendering of the same declaration; after every statement the engines' own catalogues (pragma table_xinfo / index_list / index_xinfo / foreign_key_list, sqlite_master, declared types reduced to affinity by SQLite's documented rule, which is itself checked against typeof() probes on every run) and the outcomes of behavioural probes (default row, violating / duplicate inserts) must be identical, and each abstract type must carry its intended affinity. Spaces: (1) single-column tables: 37 ColumnType/parameter combinations x every permutation of every subset of size <= 3 (quick) / 4 (thorough, 4 representative types) of 12 column specifications; (2) 756 multi-column tables: table-level primary key (single / composite), unique index (with direction), foreign key with all 36 action pairs, check, IF NOT EXISTS; (3) every sequence of 3 (quick) / 4 (thorough) follow-up statements over a 17-statement menu (ADD / RENAME / DROP COLUMN, RENAME TABLE, CREATE [UNIQUE] INDEX [IF NOT EXISTS] [partial] [direction], DROP INDEX [IF EXISTS], DROP TABLE [IF EXISTS]) - a state machine whose state is the real catalogue. Run in the default and the option-sqlite-exact-column-type build.",
    note="Trusted: the explicit reference DDL renderer and the table of intended affinities (integer types -> INTEGER; float/double/decimal/money -> REAL; char/string/text/date-time/json/uuid/enum -> TEXT; binary/blob -> BLOB; boolean -> NUMERIC or INTEGER). Declarations whose REFERENCE the engine rejects (contradictory specifications, AUTOINCREMENT on a non-INTEGER key) are out of domain and counted.",
